@@ -42,6 +42,8 @@ REPORTED = {
                              "event the traceEvents array has a trailing comma (invalid JSON)",
     "argspec-text-overflow": "get_argspec_string wrote the argument text past the end of its buffer (replay 1 KiB, "
                              "dump 2 KiB): print_args let the remaining length wrap, print_char never looked at it",
+    "chrome-ptr-symbol-escape": "dump --chrome printed the symbol name a pointer argument resolves to raw inside the JSON "
+                                "string of the arguments / retval member",
     "chrome-comm-escape": "dump --chrome prints task->comm raw in the process_name/thread_name events: a double "
                           "quote or backslash in the executable's file name gives invalid JSON",
 }
@@ -158,7 +160,7 @@ def gen_case(rng, pool, big=False, avoid_trunc=True):
     argkinds = ""
     if argsym is not None:
         heavy = rng.random() < 0.35                 # many / long / escape-heavy arguments: text beyond 1 KiB and 2 KiB
-        argkinds = "".join(rng.choice("sssc") for _ in range(rng.randrange(4, 11) if heavy else rng.randrange(1, 4)))
+        argkinds = "".join(rng.choice("ssscpu") for _ in range(rng.randrange(4, 11) if heavy else rng.randrange(1, 4)))
 
         def one_string(long_ok):
             k = rng.randrange(7)
@@ -177,8 +179,16 @@ def gen_case(rng, pool, big=False, avoid_trunc=True):
         for i, r in enumerate(recs):
             if r[2] == argsym and rng.random() < 0.8:
                 if r[1]:
-                    strs[i] = [("s", one_string(heavy)) if kd == "s" else
-                               ("c", rng.choice(SPECIAL + [0x41, 9, 10, 0, 0x27])) for kd in argkinds]
+                    def one_arg(kd):
+                        if kd == "s":
+                            return ("s", one_string(heavy))
+                        if kd == "c":
+                            return ("c", rng.choice(SPECIAL + [0x41, 9, 10, 0, 0x27]))
+                        if kd == "p":      # a pointer: to one of the functions (printed as &name), null, or anywhere else
+                            return ("p", rng.choice([BASE + 0x1000 + 0x100 * rng.randrange(nsym)] * 3 +
+                                                    [0, 0x10, 0x7ffd12345678, (1 << 64) - 1, BASE + 0xfff]))
+                        return ("u", rng.choice([0, 1, 99999, 100000, 100001, 1 << 32, (1 << 64) - 1, rng.randrange(1 << 40)]))
+                    strs[i] = [one_arg(kd) for kd in argkinds]
                 else:
                     strs[i] = [("s", one_string(heavy))]
     used = {r[0] for r in recs}
@@ -237,7 +247,7 @@ def write_dir(case, d, cmdline=b"prog arg", with_cmdline=True, exename=None):
             return b""
         b = b""
         for kd, x in v:                  # read_task_arg: every argument is padded to 4 bytes
-            b += (struct.pack("<H", len(x)) + x) if kd == "s" else bytes([x])
+            b += (struct.pack("<H", len(x)) + x) if kd == "s" else bytes([x]) if kd == "c" else struct.pack("<Q", x)
             b += b"\0" * (-len(b) % 4)
         return b
     for tid, pid, ppid in case["tasks"]:
@@ -443,10 +453,20 @@ def copts(l):
     return "[" + "; ".join("None" if x is None else "Some %s" % cb(x) for x in l) + "]"
 
 
-def cargs(l):
-    """per record: None | Some [AStr bytes; AChr n; ...]"""
-    return "[" + "; ".join("None" if v is None else "Some [%s]" % "; ".join(
-        ("AStr %s" % cb(x)) if kd == "s" else ("AChr (n_ %d)" % x) for kd, x in v) for v in l) + "]"
+def cargs(l, syms=()):
+    """per record: None | Some [AStr bytes; AChr n; APtr (Some name|None) v; AUint v ...]"""
+    def one(kd, x):
+        if kd == "s":
+            return "AStr %s" % cb(x)
+        if kd == "c":
+            return "AChr (n_ %d)" % x
+        if kd == "u":
+            return "AUint %s" % cn(x)
+        k, off = divmod(x - BASE - 0x1000, 0x100)
+        # task_find_sym_addr: the symbol whose [addr, addr + size) holds the value (size 0x80)
+        nm = syms[k] if (0 <= k < len(syms) and off < 0x80) else None
+        return "APtr %s %s" % ("None" if nm is None else "(Some %s)" % cb(nm), cn(x))
+    return "[" + "; ".join("None" if v is None else "Some [%s]" % "; ".join(one(kd, x) for kd, x in v) for v in l) + "]"
 
 
 def crow(r):
@@ -474,7 +494,7 @@ def ccase(c, p):
         "; ".join(crow(r) for r in p["graph"]),
         clines(p["flame0"]), clines(p["flameS"]), clines(p["dot"]), clines(p["mermaid"]),
         "; ".join(ccev(e) for e in p["chrome"]), "true" if p["json_ok"] else "false",
-        cargs([(c.get("strs") or {}).get(i) for i in range(len(c["recs"]))]),
+        cargs([(c.get("strs") or {}).get(i) for i in range(len(c["recs"]))], c["syms"]),
         copts([e[6] for e in p["chrome"]]))
 
 
@@ -961,6 +981,16 @@ def witnesses(ctx, objdir, hexe):
     repro["argspec-text-overflow"] = bool(bad)
     report_defect(ctx, "argspec-text-overflow", bool(bad),
                   {"kind": "witness", "asan": True, "failing_commands": bad, "case": case_json(heavy)})
+    # 8. a pointer argument / return value that resolves to a symbol whose name needs escaping
+    ptrc = {"tasks": [(100, 100, None)], "syms": [b"main", b"strfn", b'we"ird\\name', b"tab\x01ctl"], "sample": 1, "exe": "prog",
+            "argkinds": "pp", "recs": [(100, True, 0, 1000), (100, True, 1, 1100), (100, False, 1, 1200), (100, False, 0, 1300)],
+            "strs": {1: [("p", BASE + 0x1200), ("p", BASE + 0x1300)]}}
+    write_dir(ptrc, d)
+    rc, out, err = uft(objdir, ["dump", "--chrome", "--no-pager", "-d", d])
+    ctx.case(key=("wit", "ptrsym"), tags=["witness:pointer-symbol-name"])
+    repro["chrome-ptr-symbol-escape"] = rc != 0 or not parse_chrome(out)[0]
+    report_defect(ctx, "chrome-ptr-symbol-escape", repro["chrome-ptr-symbol-escape"],
+                  {"kind": "witness", "pointer_to": 'we"ird\\name', "case": case_json(ptrc)})
     # sanity: the plain directory is valid JSON
     ok, out = chrome_ok()
     if not ok:
@@ -1157,7 +1187,7 @@ def tags_of(c):
     if allargs:
         t.append("string-args")
         t.append("args:arity=%d" % len(c.get("argkinds") or "s"))
-        blob = b"".join(x if kd == "s" else bytes([x]) for v in allargs for kd, x in v)
+        blob = b"".join(x if kd == "s" else bytes([x]) if kd == "c" else b"" for v in allargs for kd, x in v)
         for b, lab in ((0x22, "arg:quote"), (0x5c, "arg:backslash"), (9, "arg:tab"), (10, "arg:newline"), (0xff, "arg:0xff")):
             if b in blob:
                 t.append(lab)
@@ -1165,11 +1195,24 @@ def tags_of(c):
             t.append("arg:NULL")
         if any(kd == "c" for v in allargs for kd, x in v):
             t.append("arg:char")
+        if any(kd == "u" for v in allargs for kd, x in v):
+            t.append("arg:uint")
+        for v in allargs:
+            for kd, x in v:
+                if kd == "p":
+                    k, off = divmod(x - BASE - 0x1000, 0x100)
+                    if 0 <= k < len(c["syms"]) and off < 0x80:
+                        t.append("arg:pointer-to-symbol")
+                        if any(b in (0x22, 0x5c) or b < 0x20 or b > 0x7e for b in c["syms"][k]):
+                            t.append("arg:pointer-to-symbol-with-special-bytes")
+                    else:
+                        t.append("arg:pointer-raw")
+        t = sorted(set(t))
 
         def esc_len(bs):
             return sum(1 if (32 <= b < 127 and b not in (0x22, 0x5c)) else 2 if b in (0x22, 0x5c) else 3 if b in (9, 10) else 5
                        for b in bs)
-        big = max(sum(4 + esc_len(x.split(b"\0")[0]) + 2 if kd == "s" else 7 for kd, x in v) for v in allargs)
+        big = max(sum(4 + esc_len(x.split(b"\0")[0]) + 2 if kd == "s" else 7 if kd == "c" else 22 for kd, x in v) for v in allargs)
         t.append("args:text<=1KiB" if big <= 1000 else "args:text>1KiB" if big <= 2040 else "args:text>2KiB(truncated)")
     return t
 
@@ -1288,7 +1331,7 @@ def run(ctx):
     # memory safety of the argument text: the directories with the longest argument texts through the ASan build
     asan = build.get_build("asan", ctx.log)
     heavy_cases = sorted((c for c in cases if c.get("strs")),
-                         key=lambda c: -max(sum(len(x) if kd == "s" else 1 for kd, x in v) for v in c["strs"].values()))
+                         key=lambda c: -max(sum(len(x) if kd == "s" else 8 for kd, x in v) for v in c["strs"].values()))
     shorties = [c for c in cases if c.get("strs") and any(kd == "s" and len(x) <= 3 for v in c["strs"].values() for kd, x in v)]
     for c in heavy_cases[:ctx.n(4, 40)] + shorties[:ctx.n(3, 20)]:
         write_dir(c, d)
